@@ -117,7 +117,8 @@ def gen_expr(rng, depth, positive=False):
         txt = None if a[1] is None else "pow(%s, %s)" % (a[1], b[1])
         return ap.pow(a[0], b[0]), txt, ("pow", a[2], b[2]), a[3]
     if k == "trans":
-        a = gen_expr(rng, depth - 1)
+        # the shifted argument may carry its own range start: trans(>=2.0 as.buck .., as.constant X) is zero where r + X lies below that start (round-6 seed C09_11)
+        a = ranged(rng, gen_expr(rng, depth - 1), p=0.4)
         X = rnd(rng, 0.0, 1.5, 2)
         f0 = a[0]
 
@@ -339,6 +340,7 @@ def check(run):
                         run.fail("deriv-mismatch", "%s: %s" % (route, p), dict(expression=str(desc), potable_definition=txt, r=r, route=route))
                     break
     regular_points(run)
+    below_first_range(run)
     # ---- built-in forms directly, dense -------------------------------------------------------------------------------------------
     for n in formlib.form_names():
         fobj = getattr(pfo, n)
@@ -351,6 +353,42 @@ def check(run):
             if p and bad == 0:
                 bad += 1
                 run.fail("deriv-mismatch", "as.%s %s: %s" % (n, ps, p), dict(form=n, params=ps, r=r))
+
+
+def below_first_range(run):
+    """a multi-range potential built through the Python API with a `default_value` (the energy below its first range, e.g. a plateau that caps a repulsive wall): the
+    energy there is that CONSTANT, so both offered derivatives are 0 - alone, inside plus()/product(), nested in another multi-range form, and as the force column of a
+    LAMMPS table (round-6 seed C07_12)"""
+    rng = run.rng
+    for _ in range(run.n(10, 120)):
+        n = rng.choice(["buck", "bornmayer", "morse", "lj", "polynomial", "exponential"])
+        ps = DOMAIN[n](rng)
+        inner = getattr(pfo, n)(*ps)
+        s = round(rng.uniform(0.8, 3.0), 3) + 0.000371
+        dv = rnd(rng, -50, 50, 2) if rng.random() < 0.85 else 0.0
+        marker = rng.choice([">", ">="])
+        f = ap.create_Multi_Range_Potential_Form(ap.Multi_Range_Defn(marker, s, inner), default_value=dv)
+        other = pfo.coul(rnd(rng, -2, 2, 1), rnd(rng, -2, 2, 1))
+        shapes = [("alone", f, lambda r: (dv, 0.0, 0.0)),
+                  ("plus(., as.coul)", ap.plus(f, other), lambda r: (dv + other(r), other.deriv(r), other.deriv2(r))),
+                  ("product(., as.coul)", ap.product(f, other), lambda r: (dv * other(r), dv * other.deriv(r), dv * other.deriv2(r))),
+                  ("nested in a second multi-range form", ap.create_Multi_Range_Potential_Form(ap.Multi_Range_Defn(">", 0.0, f)), lambda r: (dv, 0.0, 0.0))]
+        for r in (round(rng.uniform(0.05, s - 0.05), 4), s - 1e-9, 0.5 * s):
+            for name, g, want in shapes:
+                run.case(key=("below-first-range", n, tuple(ps), s, dv, marker, name, r), kind="oracle/below-first-range")
+                run.traces += 1
+                w = want(r)
+                try:
+                    got = (g(r), g.deriv(r), g.deriv2(r))
+                except Exception as e:
+                    run.fail("deriv-mismatch", "multi-range form with default_value %r below its first range (%s%r), %s, at r=%r: %s: %s" % (dv, marker, s, name, r, type(e).__name__, e),
+                             dict(form=n, params=ps, start=s, marker=marker, default_value=dv, shape=name, r=r))
+                    return
+                if any(not close(a, b, 1e-9, 1e-9) for a, b in zip(got, w)):
+                    run.fail("deriv-mismatch", "multi-range form as.%s %s from %s%r with default_value %r, %s, at r=%r (below the first range, where the energy is the constant): "
+                             "(value, deriv, deriv2) = %r, the derivatives of the energy are %r" % (n, ps, marker, s, dv, name, r, got, w),
+                             dict(form=n, params=ps, start=s, marker=marker, default_value=dv, shape=name, r=r))
+                    return
 
 
 def regular_points(run):
